@@ -77,6 +77,11 @@ pub trait Engine {
     fn label_floor(&self, _p: &Params) -> Vec<(&'static str, f64)> {
         vec![]
     }
+    /// tags added to every failure of a run (the mode the run was made in), so that a known-finding
+    /// signature can be tied to the mode in which that finding can arise at all
+    fn context_tags(&self, _p: &Params) -> Vec<String> {
+        vec![]
+    }
 }
 
 // ------------------------------------------------------------------ worker side
@@ -90,6 +95,19 @@ pub struct WorkerArgs {
 }
 
 fn run_guarded<E: Engine>(e: &E, case: &E::Case, p: &Params) -> Outcome {
+    let mut o = run_guarded_inner(e, case, p);
+    if let Some(mut f) = o.failure.take() {
+        for t in e.context_tags(p) {
+            if !f.tags.contains(&t) {
+                f = f.tag(t);
+            }
+        }
+        o.failure = Some(f);
+    }
+    o
+}
+
+fn run_guarded_inner<E: Engine>(e: &E, case: &E::Case, p: &Params) -> Outcome {
     let r = std::panic::catch_unwind(std::panic::AssertUnwindSafe(|| e.run(case, p)));
     match r {
         Ok(o) => o,
